@@ -32,7 +32,7 @@ GNext ==
             \/ ("okta" \in Mechs /\ Try(OktaPoll(c), "OktaPoll", [cred |-> c]))
             \/ ("u2f" \in Mechs /\ Try(U2FBegin(c), "U2FBegin", [cred |-> c]))
             \/ ("cli" \in Mechs /\ Try(CliShow(c), "CliShow", [cred |-> c]))
-       \/ \E u \in Users : OktaApprove(u) \/ BotpGen(u)
+       \/ \E u \in Users : OktaApprove(u) \/ BotpGen(u) \/ \E how \in {"rejected", "timeout"} : OktaDecline(u, how)
        \/ \E c \in Creds, o \in Users, d \in {0 - 1, 0, 1} :
             "totp" \in Mechs /\ now + d >= 0 /\ Try(Totp(c, o, now + d), "Totp", [cred |-> c, owner |-> o, step |-> d])
        \/ \E c \in Creds, o \in Users, s2 \in Slots :
